@@ -181,3 +181,7 @@ def run(ctx):
                     r.check("id" in d, "%s/modification-id" % tag, m.loc(), "Modification::of(%s)" % d[:50])
         if n < 3:
             raise AnchorMissing("expected >= 3 value mutating handler steps (ValueLaneSet, ValueLaneSelectSet, ValueStoreSet), found %d" % n)
+
+    with ctx.rule("C01.R10", "T1+T7", "every frame is addressed with the lane it belongs to (the sender's lane name is set per frame, for the lane of that frame)", floor=15) as r:
+        uplinks.frame_lane_name(r, ctx)
+
